@@ -55,7 +55,7 @@ func ruleKeepOrCount(c *Ctx, r *Report) {
 
 // C06 — decrypting what was encrypted restores the content (narrow structural clauses).
 func checkC06(c *Ctx, r *Report) {
-	r.Explanation = "(L-FILTERBREAK) where a child list is rebuilt from a loop that appends the kept elements, the loop is not left by a break; (R3-BYTES) a function of package mp4 writes into a []byte parameter only where the frozen table lists the pair as an in-place buffer (sample payloads of the crypt functions, the IV helper's own copy): keys, KIDs and the IV handed to EncryptFragment (which is also the IV stored for the first sample) are never written; Narrow clauses of the encrypt/decrypt path: (O-KEEP) in TrafBox.RemoveEncryptionBoxes every child is either kept or its Size() is added to the removed byte count; " +
+	r.Explanation = "(O-EVERY) every cycle of the fragment loop of DecryptSegment passes the call of DecryptFragment; (L-FILTERBREAK) where a child list is rebuilt from a loop that appends the kept elements, the loop is not left by a break; (R3-BYTES) a function of package mp4 writes into a []byte parameter only where the frozen table lists the pair as an in-place buffer (sample payloads of the crypt functions, the IV helper's own copy): keys, KIDs and the IV handed to EncryptFragment (which is also the IV stored for the first sample) are never written; Narrow clauses of the encrypt/decrypt path: (O-KEEP) in TrafBox.RemoveEncryptionBoxes every child is either kept or its Size() is added to the removed byte count; " +
 		"(DEP) the correction applied to every trun.DataOffset in DecryptFragment depends on the byte counts returned by RemoveEncryptionBoxes and RemovePsshs; the saio offset written by EncryptFragment depends on the sizes of all moof children preceding the traf and of the traf children preceding senc; " +
 		"InitProtect stores the ORIGINAL sample entry type in frma (captured before SetType); RemoveEncryption restores the sample entry type from sinf.Frma.DataFormat; what is stored in senc/saiz for a sample (iv, sub-sample pattern) is what the crypt call used, with no IV update in between; " +
 		"(DEP) EncryptFragment reads the samples with the trex of the protected track; (G3D) the carry loop that steps the cenc IV indexes the IV with a counter that a dominating test keeps at 0 or above (a carry out of the most significant byte wraps instead of indexing iv[-1]); (O-EVERY) every iteration of the per-sample loop of EncryptFragment records the sample in senc and saiz (no continue goes round AddSample / AddSampleInfo); (DEP) the mp4ff-encrypt tool hands every EncryptFragment call the IV value it handed InitProtect (for cbcs the constant IV in tenc is all a decryptor knows); DecryptInit attaches each trex to the track info with the same track id (not by position); (L-NILRANGE) no loop in package mp4 runs over a field that was set to nil just before (RemovePsshs sums the sizes of the saved list: the removed byte count corrects data offsets); (O-EVERY) every iteration of DecryptFragment's loop over the track fragments reaches RemoveEncryptionBoxes; (O-IVLEN) in SencBox.ParseReadBox k bytes are read per IV under perSampleIVSize == k; (O-RO) no slice write in package mp4 targets storage of a tenc box field; ContainsSencBox reports 'not found' only after all children were examined; on decrypt the crypt call's iv and pattern depend on senc.IVs / tenc.DefaultConstantIV and senc.SubSamples. Decides these necessary conditions; byte-exact restoration (cipher arithmetic), counter wrap and timing fields are not decided."
@@ -136,6 +136,7 @@ func checkC06(c *Ctx, r *Report) {
 	}
 	requireFixture(r, "G3D", "carryDown", func(fc *Ctx, s *Report) { ruleG3D(fc, s, nil) })
 	ruleEveryCycleCalls(c, r, "mp4", "EncryptFragment", "SencBox.AddSample", "senc then has fewer entries than the trun has samples and decryption falls back to a zero IV")
+	ruleEveryCycleCalls(c, r, "mp4", "DecryptSegment", "mp4.DecryptFragment", "a fragment skipped here stays encrypted although the segment is reported as decrypted (a decision taken from the first traf misses protected tracks that come later)")
 	ruleEveryCycleCalls(c, r, "mp4", "EncryptFragment", "SaizBox.AddSampleInfo", "saiz then describes fewer samples than the fragment has")
 	ruleEveryIteration(c, r)
 	if n := ruleDeadRange(c, r, func(f *ssa.Function) bool { return strings.HasPrefix(SSAFuncName(f), "mp4.") }); n < 200 {
